@@ -117,7 +117,7 @@ package server
 //@ func quorumAckTracker.WaitForCommitOffset
 //@ trusted
 //@ ensures result == nil ==> q.requiredAcks == 0 || q.commitOffset.v >= offset
-//@ preserves fields(quorumAckTracker), fields(util.BitSet), fields(map[int64]*server/util.BitSet), fields(cursorAcker), fields(leaderController)
+//@ preserves fields(quorumAckTracker), fields(util.BitSet), fields(map[int64]*server/util.BitSet), fields(cursorAcker), fields(leaderController), fields(wal.wal)
 //@ note trusted: blocks on a channel fed by a concurrent.Once callback; OnComplete is invoked only with commit >= offset (asserted at both invocation sites: WaitForCommitOffsetAsync, notifyCommitOffsetAdvanced) and commit never decreases (ack, AdvanceHeadOffset); channels and goroutines are outside the verified subset
 
 // ---------------------------------------------------------------- secondary indexes (C15)
@@ -305,6 +305,12 @@ package server
 //@ trusted
 //@ modifies fields(sessionManager), fields(session)
 
+//@ func SessionManager.Initialize
+//@ trusted
+//@ modifies *
+//@ preserves fields(leaderController)
+//@ note trusted: re-arms the stored sessions (timers, goroutines); reads the leader controller, writes only the session manager's own state and the database
+
 // NewTerm on the node that may be leader: the term never decreases; a request for a
 // lower term, or a repeated request for the current term after the node left the fenced
 // state, fails and changes nothing; the new term is stored in the database before it
@@ -460,14 +466,32 @@ package server
 //@ func leaderController.addFollower
 //@ trusted
 //@ modifies *
-//@ preserves lc.term, lc.status, lc.quorumAckTracker, lc.leaderElectionHeadEntryId, lc.log, lc.wal, lc.db, lc.ctx, lc.sessionManager
+//@ preserves lc.term, lc.status, lc.quorumAckTracker, lc.leaderElectionHeadEntryId, lc.log, lc.wal, lc.db, lc.ctx, lc.sessionManager, fields(wal.wal)
 //@ note trusted: starts the follower cursor (goroutines, streams); truncateFollowerIfNeeded inside it is verified
 
-//@ func leaderController.applyAllEntriesIntoDB
-//@ trusted
+// Replay on becoming leader: the log is opened right after the commit offset stored in
+// the database, and every entry from there on is applied at its own offset, in log order.
+//
+//@ func leaderController.applyAllEntriesIntoDB(lc) (err)
+//@ property C07 C05
+//@ requires lc.db != nil && lc.wal != nil && lc.log != nil && lc.quorumAckTracker != nil && lc.sessionManager != nil && as(lc.wal, *wal.wal).readLatency != nil && as(lc.wal, *wal.wal).lastSyncedOffset.v < 4611686018427387904
+//@ assume at call ReadCommitOffset#0: result1 == nil ==> -1 <= result0 && result0 < 4611686018427387904 because "the stored commit offset is an offset of this log or -1"
+//@ assert at call NewReader#0: after == dbCommitOffset
 //@ modifies *
 //@ preserves lc.term, lc.status, lc.log, lc.leaderElectionHeadEntryId
-//@ note trusted: reads the log forward and applies every entry (db.ProcessWrite is verified per entry)
+
+//@ func leaderController.applyAllEntriesIntoDBLoop(lc, r) (err)
+//@ property C07
+//@ requires r != nil && typeIs(r, *wal.forwardReader) && lc.db != nil
+//@ requires as(r, *wal.forwardReader).reader.wal != nil && as(r, *wal.forwardReader).reader.wal.readLatency != nil && as(r, *wal.forwardReader).reader.wal.lastSyncedOffset.v < 4611686018427387904
+//@ assume at call Unmarshal#0: result == nil ==> logEntryValue.GetRequests() != nil && forall i int :: 0 <= i && i < len(logEntryValue.GetRequests().Writes) ==> logEntryValue.GetRequests().Writes[i] != nil because "every entry in the log was produced by leaderController.write, which always stores a Requests value; protobuf decoding never yields nil elements in a repeated message field"
+//@ assert at call ProcessWrite#0: commitOffset == entry.Offset && timestamp == entry.Timestamp && entry.Offset == as(r, *wal.forwardReader).reader.nextOffset - 1
+//@ loop 0 modifies *
+//@ loop 0 invariant lc.db == old(lc.db) && as(r, *wal.forwardReader).reader.wal == old(as(r, *wal.forwardReader).reader.wal) && as(r, *wal.forwardReader).reader.wal.readLatency != nil && as(r, *wal.forwardReader).reader.wal.lastSyncedOffset.v < 4611686018427387904 && as(r, *wal.forwardReader).reader.nextOffset >= old(as(r, *wal.forwardReader).reader.nextOffset)
+//@ loop 1 modifies *
+//@ loop 1 invariant lc.db == old(lc.db) && entry != nil && entry.Offset == as(r, *wal.forwardReader).reader.nextOffset - 1 && as(r, *wal.forwardReader).reader.wal == old(as(r, *wal.forwardReader).reader.wal) && as(r, *wal.forwardReader).reader.wal.readLatency != nil && as(r, *wal.forwardReader).reader.wal.lastSyncedOffset.v < 4611686018427387904 && as(r, *wal.forwardReader).reader.nextOffset >= old(as(r, *wal.forwardReader).reader.nextOffset)
+//@ modifies *
+//@ preserves fields(leaderController)
 
 //@ func NewSessionManager
 //@ trusted
@@ -483,8 +507,10 @@ package server
 //@ property C05 C04
 //@ holdslock
 //@ requires req != nil && 1 <= req.ReplicationFactor && req.ReplicationFactor <= 17 && lc.wal != nil && lc.db != nil && lc.log != nil && lc.ctx != nil
+//@ requires as(lc.wal, *wal.wal).readLatency != nil && as(lc.wal, *wal.wal).lastSyncedOffset.v < 4611686018427387904
 //@ assume at call ReadCommitOffset#0: result1 == nil ==> -1 <= result0 && result0 <= lc.leaderElectionHeadEntryId.Offset && lc.leaderElectionHeadEntryId.Offset < 4611686018427387904 because "the stored commit offset never exceeds the log head of the same node (entries are applied from the log: C07/C09), offsets are below 2^62"
 //@ loop 0 invariant lc.term == old(lc.term) && lc.status == 1 && lc.quorumAckTracker != nil && lc.leaderElectionHeadEntryId != nil && lc.log != nil
+//@ loop 0 invariant lc.db != nil && lc.wal != nil && lc.sessionManager != nil && as(lc.wal, *wal.wal).readLatency != nil && as(lc.wal, *wal.wal).lastSyncedOffset.v < 4611686018427387904
 //@ ensures lc.term == old(lc.term)
 //@ ensures err == nil ==> old(lc.status) == 1 && old(req.Term) == lc.term && lc.status == 3 && res != nil
 //@ ensures (old(lc.status) != 1 || old(req.Term) != old(lc.term)) ==> err != nil && lc.status == old(lc.status) && lc.quorumAckTracker == old(lc.quorumAckTracker) && lc.replicationFactor == old(lc.replicationFactor)
@@ -525,4 +551,93 @@ package server
 //@ loop 0 invariant offset == ghost(lastOff, cb) && offset < 4611686018427387904
 //@ loop 1 invariant offset == ghost(lastOff, cb) && offset < 4611686018427387904 && forall i int :: rangeindex < i && i < len(notifications) ==> notifications[i] != nil && notifications[i].Offset > offset && notifications[i].Offset < 4611686018427387904
 //@ loop 1 invariant forall i int, j int :: 0 <= i && i < j && j < len(notifications) ==> notifications[i].Offset < notifications[j].Offset
+//@ modifies *
+
+// ---------------------------------------------------------------- follower: applying committed entries (C07)
+
+// One committed entry: every write request it carries is applied at the entry's own
+// offset and timestamp, in the order logged.
+//
+//@ func followerController.processCommitRequest(fc, entry, logEntryValue) (err)
+//@ property C07
+//@ requires entry != nil && logEntryValue != nil && fc.db != nil && fc.log != nil && logEntryValue.GetRequests() != nil
+//@ requires forall i int :: 0 <= i && i < len(logEntryValue.GetRequests().Writes) ==> logEntryValue.GetRequests().Writes[i] != nil
+//@ assert at call ProcessWrite#0: commitOffset == entry.Offset && timestamp == entry.Timestamp
+//@ loop 0 modifies *
+//@ loop 0 invariant fc.db == old(fc.db) && fc.log == old(fc.log) && entry.Offset == old(entry.Offset) && entry.Timestamp == old(entry.Timestamp)
+//@ modifies *
+//@ preserves fields(followerController), fields(wal.reader), fields(wal.forwardReader), fields(wal.wal), fields(proto.LogEntry)
+
+// The apply loop: entries are read forward from the log starting right after the applied
+// (commit) offset; each is decoded into a message that has just been reset, applied, and
+// only then does the applied offset move to exactly that entry's offset — so the next
+// entry applied is always applied-offset + 1: none skipped, none applied twice, in order.
+//
+//@ func followerController.processCommittedEntriesLoop(fc, reader, maxInclusive) (err)
+//@ property C07
+//@ requires reader != nil && typeIs(reader, *wal.forwardReader) && fc.db != nil && fc.log != nil
+//@ requires as(reader, *wal.forwardReader).reader.wal != nil && as(reader, *wal.forwardReader).reader.wal.readLatency != nil && as(reader, *wal.forwardReader).reader.wal.lastSyncedOffset.v < 4611686018427387904
+//@ requires as(reader, *wal.forwardReader).reader.nextOffset == fc.commitOffset.v + 1
+//@ assert at call UnmarshalVT#0: ghost(clean, logEntryValue) == 1
+//@ assume at call UnmarshalVT#0: result == nil ==> logEntryValue.GetRequests() != nil && forall i int :: 0 <= i && i < len(logEntryValue.GetRequests().Writes) ==> logEntryValue.GetRequests().Writes[i] != nil because "every entry in the log was produced by leaderController.write, which always stores a Requests value; protobuf decoding never yields nil elements in a repeated message field"
+//@ assert at call processCommitRequest#0: entry.Offset == fc.commitOffset.v + 1 && entry.Offset <= maxInclusive
+//@ loop 0 modifies *
+//@ loop 0 invariant fc.db == old(fc.db) && fc.log == old(fc.log) && fc.db != nil && fc.log != nil && logEntryValue != nil
+//@ loop 0 invariant as(reader, *wal.forwardReader).reader.wal == old(as(reader, *wal.forwardReader).reader.wal) && as(reader, *wal.forwardReader).reader.wal.readLatency != nil && as(reader, *wal.forwardReader).reader.wal.lastSyncedOffset.v < 4611686018427387904
+//@ loop 0 invariant as(reader, *wal.forwardReader).reader.nextOffset == fc.commitOffset.v + 1 && fc.commitOffset.v >= old(fc.commitOffset.v)
+//@ ensures fc.commitOffset.v >= old(fc.commitOffset.v)
+//@ modifies *
+//@ preserves fc.log, fc.db, fc.wal
+
+// An apply round opens the log right after the applied offset (so the first entry read
+// is applied-offset + 1) and never moves the applied offset backwards.
+//
+//@ func followerController.processCommittedEntries(fc, maxInclusive) (err)
+//@ property C07
+//@ requires fc.wal != nil && fc.db != nil && fc.log != nil && as(fc.wal, *wal.wal).readLatency != nil && as(fc.wal, *wal.wal).lastSyncedOffset.v < 4611686018427387904 && fc.commitOffset.v < 4611686018427387904
+//@ ensures fc.commitOffset.v >= old(fc.commitOffset.v)
+//@ modifies *
+
+//@ func followerController.processCommittedEntries$1
+//@ property C07
+//@ requires reader != nil && fc != nil && fc.log != nil
+//@ modifies *
+//@ preserves fields(followerController)
+
+// ---------------------------------------------------------------- leader: one write (C07, C08)
+
+// write: only a leader appends; the entry gets the next offset of the quorum tracker and
+// the term read under the same lock.
+//
+//@ func leaderController.write(lc, ctx, requestSupplier, cb)
+//@ property C07 C08
+//@ requires lc.writeLatencyHisto != nil && cb != nil && requestSupplier != nil && lc.log != nil
+//@ requires lc.status == 3 ==> lc.quorumAckTracker != nil && lc.wal != nil && walInv(as(lc.wal, *wal.wal)) && as(lc.quorumAckTracker, *quorumAckTracker).nextOffset.v < 4611686018427387902
+//@ callback requestSupplier modifies nothing
+//@ assert at call AppendAndSync#0: old(lc.status) == 3 && entry.Offset == old(as(lc.quorumAckTracker, *quorumAckTracker).nextOffset.v) + 1 && entry.Term == old(lc.term)
+//@ modifies *
+
+// After the append: the head offset of the tracker moves to this entry's offset, and
+// the database write is registered to run when exactly this offset is committed.
+// No goroutine is started (the callback runs in the log's append path, in order).
+//
+//@ func leaderController.write$1
+//@ property C07 C08
+//@ sequential
+//@ requires tracker != nil && cb != nil && lc != nil && qInv(as(tracker, *quorumAckTracker)) && as(tracker, *quorumAckTracker).waitForHeadOffset != nil && newOffset < 4611686018427387904
+//@ assert at call AdvanceHeadOffset#0: headOffset == newOffset
+//@ assert at call WaitForCommitOffsetAsync#0: offset == newOffset
+//@ modifies *
+
+// When the offset is committed: the request logged at that offset is applied to the
+// database at that offset, in the caller's goroutine — the quorum tracker invokes these
+// callbacks in offset order under its lock, so applying inline keeps the apply order
+// equal to the log order — and the client gets the response of that very write.
+//
+//@ func leaderController.write$1$1
+//@ property C07
+//@ sequential
+//@ requires lc != nil && lc.db != nil && cb != nil
+//@ assert at call ProcessWrite#0: b == request && commitOffset == newOffset
+//@ assert at call OnComplete#0: t == wr
 //@ modifies *
